@@ -72,6 +72,81 @@ class Closure:
         self.f, self.node, self.env = f, node, env
 
 
+def _walk_own(fnode):
+    """nodes of a function body without the bodies of nested functions / lambdas"""
+    stack = list(fnode.body)
+    while stack:
+        n = stack.pop()
+        yield n
+        for c in ast.iter_child_nodes(n):
+            if not isinstance(c, (ast.FunctionDef, ast.Lambda, ast.AsyncFunctionDef)):
+                stack.append(c)
+
+
+class GenProxy:
+    """a generator FUNCTION of the analysed source (its body contains `yield`): the body is evaluated in a helper thread
+    that hands its values over one at a time, so that side effects between two yields happen when the consumer asks for
+    the next value -- as in Python"""
+
+    def __init__(self, interp, f, args, kwargs):
+        import queue
+        import threading
+        self.interp, self.f, self.args, self.kwargs = interp, f, args, kwargs
+        self.q_out, self.q_in = queue.Queue(), queue.Queue()
+        self.thread = None
+        self.done = False
+        self._threading = threading
+
+    def _run(self):
+        sub = Interp(self.interp.ctx, stubs=self.interp.stubs, max_steps=self.interp.max_steps, classes=self.interp.classes)
+        sub.steps = self.interp.steps
+
+        def hook(v):
+            self.q_out.put(('yield', v))
+            if self.q_in.get() == 'stop':
+                raise _Stop()
+        sub._yield_hook = hook
+        try:
+            self.q_in.get()
+            sub._call(self.f, self.args, self.kwargs)
+            self.q_out.put(('end', None))
+        except _Stop:
+            self.q_out.put(('end', None))
+        except Raised as ex:
+            self.q_out.put(('raise', ex))
+        except Unsupported as ex:
+            self.q_out.put(('unsupported', ex))
+        except BaseException as ex:      # pragma: no cover
+            self.q_out.put(('unsupported', Unsupported(repr(ex))))
+
+    def __iter__(self):
+        return self
+
+    def __next__(self):
+        if self.done:
+            raise StopIteration
+        if self.thread is None:
+            self.thread = self._threading.Thread(target=self._run, daemon=True)
+            self.thread.start()
+        self.q_in.put('go')
+        kind, v = self.q_out.get()
+        if kind == 'yield':
+            return v
+        self.done = True
+        if kind == 'raise' or kind == 'unsupported':
+            raise v
+        raise StopIteration
+
+    def close(self):
+        if self.thread is not None and not self.done:
+            self.done = True
+            self.q_in.put('stop')
+
+
+class _Stop(Exception):
+    pass
+
+
 class Interp:
     def __init__(self, ctx, stubs=None, max_steps=20000, classes=None):
         self.ctx = ctx
@@ -82,7 +157,30 @@ class Interp:
         self.depth = 0
 
     # -- functions ------------------------------------------------------------------------------------------------------
+    def apply(self, f, fn, args):
+        """call a function VALUE (closure, builtin, class or function name) with positional arguments"""
+        if isinstance(fn, Closure):
+            return self.call_closure(fn, args, {})
+        if callable(fn) and not isinstance(fn, tuple):
+            return fn(*args)
+        if isinstance(fn, tuple) and fn and fn[0] == '$name':
+            short = fn[1].split('.')[-1]
+            if short in self.classes:
+                return self.classes[short](*args)
+            try:
+                r = self.ctx.prog.resolve_expr(f, f.module, ast.parse(fn[1], mode='eval').body)
+            except Exception:
+                r = None
+            if r is not None and r.kind == 'func':
+                return self.call(r.target, args, {})
+        raise Unsupported('call of a function value')
+
     def call(self, f, args, kwargs=None):
+        if any(isinstance(n, (ast.Yield, ast.YieldFrom)) for n in _walk_own(f.node)):
+            return GenProxy(self, f, list(args), dict(kwargs or {}))
+        return self._call(f, args, kwargs)
+
+    def _call(self, f, args, kwargs=None):
         kwargs = dict(kwargs or {})
         self.depth += 1
         if self.depth > 30:
@@ -269,7 +367,7 @@ class Interp:
         return bool(v)
 
     def iterate(self, v):
-        if isinstance(v, (list, tuple, set, frozenset, dict, str, range)) or hasattr(v, '__next__') or type(v).__name__ in ('dict_items', 'dict_keys', 'dict_values', 'enumerate', 'zip', 'reversed'):
+        if isinstance(v, (list, tuple, set, frozenset, dict, str, range)) or hasattr(v, '__next__') or type(v).__name__ in ('dict_items', 'dict_keys', 'dict_values', 'enumerate', 'zip', 'reversed', 'count', 'GenProxy'):
             return v
         raise Unsupported('iteration over ' + type(v).__name__)
 
@@ -317,6 +415,25 @@ class Interp:
         rec(0, env)
         return out
 
+    def lazy_gen(self, f, e, env):
+        """a generator expression is evaluated on demand (its source may be unbounded, its consumer may stop early); the
+        first iterable is evaluated at once, as in Python"""
+        first = self.iterate(self.ev(f, e.generators[0].iter, env))
+
+        def rec(i, env2, src=None):
+            if i == len(e.generators):
+                yield self.ev(f, e.elt, env2)
+                return
+            g = e.generators[i]
+            it = src if src is not None else self.iterate(self.ev(f, g.iter, env2))
+            for x in it:
+                self.tick()
+                env3 = dict(env2)
+                self.assign(f, g.target, x, env3)
+                if all(self.truth(self.ev(f, c, env3)) for c in g.ifs):
+                    yield from rec(i + 1, env3)
+        return rec(0, env, first)
+
     def ev(self, f, e, env):
         self.tick()
         if e is None:
@@ -346,7 +463,7 @@ class Interp:
         if isinstance(e, ast.SetComp):
             return set(self.comp(f, e, env, 'set'))
         if isinstance(e, ast.GeneratorExp):
-            return iter(self.comp(f, e, env, 'gen'))
+            return self.lazy_gen(f, e, dict(env))
         if isinstance(e, ast.DictComp):
             return dict(self.comp(f, e, env, 'dict'))
         if isinstance(e, ast.UnaryOp):
@@ -435,6 +552,12 @@ class Interp:
         if isinstance(e, ast.Lambda):
             fn = ast.FunctionDef(name='<lambda>', args=e.args, body=[ast.Return(value=e.body)], decorator_list=[], returns=None, type_comment=None)
             return Closure(f, fn, env)
+        if isinstance(e, ast.Yield):
+            hook = getattr(self, '_yield_hook', None)
+            if hook is None:
+                raise Unsupported('yield outside a generator function')
+            hook(self.ev(f, e.value, env) if e.value is not None else None)
+            return None
         if isinstance(e, ast.Starred):
             raise Unsupported('starred expression')
         if isinstance(e, ast.Call):
@@ -513,6 +636,28 @@ class Interp:
                 if isinstance(fac, tuple) and fac and fac[0] == '$name' and fac[1].split('.')[-1] in self.classes:
                     return collections.defaultdict(self.classes[fac[1].split('.')[-1]])
                 raise Unsupported('defaultdict factory')
+            if name == 'itertools.count' and len(args) <= 2 and not kwargs:
+                import itertools
+                return itertools.count(*args)
+            if name in ('itertools.combinations', 'itertools.combinations_with_replacement', 'itertools.permutations') and len(args) == 2:
+                import itertools
+                return list(getattr(itertools, short)(list(self.iterate(args[0])), args[1]))
+            if name == 'itertools.chain':
+                out0 = []
+                for a0 in args:
+                    out0.extend(list(self.iterate(a0)))
+                return out0
+            if name in ('functools.reduce', 'reduce') and len(args) in (2, 3):
+                fn0, seq0 = args[0], list(self.iterate(args[1]))
+                if len(args) == 3:
+                    acc = args[2]
+                elif seq0:
+                    acc, seq0 = seq0[0], seq0[1:]
+                else:
+                    raise Raised('TypeError')
+                for x0 in seq0:
+                    acc = self.apply(f, fn0, [acc, x0])
+                return acc
             if name in ('itertools.product',):
                 import itertools
                 rep = kwargs.get('repeat', 1)
